@@ -199,7 +199,10 @@ pub fn parse_with_parser(result: &mut Buffer, interpreter: &mut dyn BufferParser
 
     // transform sixels to layers
     while !result.sixel_threads.is_empty() {
+        #[cfg(not(icy_engine_verif))]
         thread::sleep(Duration::from_millis(50));
+        #[cfg(icy_engine_verif)]
+        crate::verif_hooks::sleep(Duration::from_millis(50));
         result.update_sixel_threads()?;
     }
     let mut num = 0;
